@@ -336,6 +336,7 @@ func cmdCheck(mode string, args []string) {
 		}
 	}
 	discharged, nLocked := 0, 0
+	encReported := map[string]bool{}
 	var undecidedNew, refutedNew []string
 	vanishedByFuncClass := map[string][]string{}
 	lockedNames := make([]string, 0, len(locked))
@@ -352,7 +353,11 @@ func cmdCheck(mode string, args []string) {
 		if !ok {
 			fn := strings.SplitN(n, "#", 2)[0]
 			if e, bad := encErr[fn]; bad {
-				report(n, "function could not be encoded after the change: "+e, e, true)
+				// one line per function (its other claimed obligations are lost for the same reason)
+				if !encReported[fn] {
+					encReported[fn] = true
+					report(n, "a contract clause of this function can no longer be attached to the changed code, so none of its claimed obligations is re-established: "+e, e, true)
+				}
 				continue
 			}
 			if !generated[n] {
